@@ -1,7 +1,7 @@
 ------------------------------- MODULE ExtractIO -------------------------------
 EXTENDS ExtractR, TLC, Json, IOUtils
 CONSTANTS KeyMenu, MaxBlocks
-KeyLists == { DefaultKeys, <<7>>, <<0, 105>>, <<200, 46, 7>> }
+KeyLists == { DefaultKeys, <<7>>, <<0, 105>>, <<200, 46, 7>>, <<7, 200, 7>> }     \* (a caller may repeat a key: priority is that of its first occurrence)
 Wheres(c) == IF c = "xorenc" THEN {"inner", "outer"} ELSE {"outer"}
 BlockSeqs(c) == UNION { [1..n -> [key : KeyMenu, where : Wheres(c)]] : n \in 0..MaxBlocks }
 Scn == { <<c, b, k, a>> : c \in {"raw", "pe", "xorenc"}, b \in BlockSeqs("xorenc"), k \in KeyLists, a \in BOOLEAN }
